@@ -101,8 +101,11 @@ def main():
     # ---- traditional, 5 windows on an 8-point grid --------------------------------------------
     nw, nf = (4, 8) if quick else (5, 8)
     k_ex = 210 if quick else 462          # of the 210 (NW=4) / 462 (NW=5) window multisets over 7 curves
+    # (FdwraStep - the implementation-shaped outcome is one of the property-level outcomes, never re-accepts, 1 <= it <= max - is
+    #  checked by TLC on every transition of the two-azimuth graph below and, in the thorough tier, of all graphs: evaluating the whole
+    #  property-level outcome set on 18 000 transitions costs a quarter of an hour of CPU)
     ex = hvsrobj.cfg_text(1, nw, nf, "Alpha8d", "Ranges8", "NSetC", "MaxItsC", "InitPermsEnvQ", export=True, nxt="NextC06",
-                          invariants=["TypeOK", "PeaksCurrent"], props=["FdwraStep"])
+                          invariants=["TypeOK", "PeaksCurrent"], props=[] if quick else ["FdwraStep"])
     res, graph = hvsrobj.export_graph(ex, "C06-export", {"VERIF_K": k_ex, "VERIF_SEED": run.seed}, timeout=6000)
     run.add_tlc(res, "HvsrObject NextC06 (I tier, all orderings of the sampled window multisets): FdwraStep = never "
                      "re-accepts, 1<=it<=max, I outcome in P set; every transition exported")
@@ -137,18 +140,26 @@ def main():
                     run.violation("fdwra:log:mean-curve-peak", f"{t['a']} cv={cv} ({inst.name()}): iteration {it['k']} uses the mean-curve peak at grid index "
                                   f"{gi} for accepted windows {it['vw']}; under distribution_mc={inst.dist_a} the mean curve peaks at {st['mcp']}", rep)
     rp.fdwra_hook = fdwra_hook
-    for inst in (hvsrobj.Instance(nf, "N", "N"), hvsrobj.Instance(nf, "N", "L", q=2.0), hvsrobj.Instance(nf, "N", "N", ascale=8.0)):
-        rp.replay(inst)
+    import zlib
+
+    def share(k, m):
+        """quick tier: instance k of m replays the transitions whose hash is k modulo m (every transition is replayed by one instance)"""
+        if not quick:
+            return None
+        return lambda a, t: zlib.crc32(json.dumps([t["s"], t["a"]], sort_keys=True).encode()) % m == k
+    for k_, inst in enumerate((hvsrobj.Instance(nf, "N", "N"), hvsrobj.Instance(nf, "N", "L", q=2.0)) + (() if quick else (hvsrobj.Instance(nf, "N", "N", ascale=8.0),))):
+        rp.replay(inst, trans_filter=share(k_, 2))
     run.notes["fdwra_log_iterations_checked"] = logstat["iterations"]
     # the same through a fixed set where the arithmetic and geometric mean curves peak at different frequencies
-    exd = hvsrobj.cfg_text(1, 4, nf, "Alpha8d", "Ranges8", "NSetC", "MaxItsC", "InitTallMedium", export=True, nxt="NextC06")
+    exd = hvsrobj.cfg_text(1, 4, nf, "Alpha8d", "Ranges8", "NSetC", "MaxItsC", "InitTallMedium", export=True, nxt="NextC06", props=[] if quick else ["FdwraStep"])
     resd, gd = hvsrobj.export_graph(exd, "C06-tallmedium", {}, timeout=3000)
     run.add_tlc(resd, "HvsrObject NextC06 from the orderings of {tall tent, 3 medium tents}: arithmetic vs geometric mean-curve peak differ")
     constsd = consts.replace(f"NW = {nw}", "NW = 4")
     rpd = hvsrobj.Replayer(run, hvsrpy, gd, ALPHA8D, 1, 4, nf, constsd, focus={"Fdwra", "Init"})
     rpd.fdwra_hook = fdwra_hook
-    for inst in (hvsrobj.Instance(nf, "N", "L", q=2.0), hvsrobj.Instance(nf, "N", "N"), hvsrobj.Instance(nf, "L", "L", alias=True)):
-        rpd.replay(inst)
+    # (rescaling all amplitudes - ascale 8 - must not change any decision: same graph, same expected outcomes)
+    for k_, inst in enumerate((hvsrobj.Instance(nf, "N", "L", q=2.0), hvsrobj.Instance(nf, "N", "N"), hvsrobj.Instance(nf, "N", "N", ascale=8.0), hvsrobj.Instance(nf, "L", "L", alias=True))):
+        rpd.replay(inst, trans_filter=share(k_ % 3, 3) if k_ < 3 else None)
     rpd.validate_pending()
     run.notes["fdwra_log_iterations_checked"] = logstat["iterations"]
     # order of the windows: in the TLC state graph itself, the Fdwra transitions leaving the initial state of
@@ -173,6 +184,16 @@ def main():
         k = sorted(bad)[0]
         raise hvsrobj.MachineryError(f"the specification's FDWRA is not permutation-equivariant: {k} -> {bad[k]}")
 
+    # ---- a fine frequency grid (0.002 Hz per step, 0.01 Hz = 5 steps): here the standard deviation changes by less than 0.01 Hz
+    #      from pass to pass and the relative-change criterion on |mean fn - mean-curve peak| is the one that decides
+    ex5 = hvsrobj.cfg_text(1, 4, nf, "Alpha8d", "Ranges8", "NSetC", "MaxItsC", "InitSpread", sthr="SThrFive", export=True, nxt="NextC06")
+    res5, graph5 = hvsrobj.export_graph(ex5, "C06-export5", {}, timeout=6000)
+    run.add_tlc(res5, "HvsrObject NextC06 with SThr = 5 grid steps (fine grid) export")
+    consts5 = consts.replace("SThr <- SThrHalf", "SThr <- SThrFive").replace(f"NW = {nw}", "NW = 4")
+    rp5 = hvsrobj.Replayer(run, hvsrpy, graph5, ALPHA8D, 1, 4, nf, consts5, focus={"Fdwra", "Init"})
+    rp5.replay(hvsrobj.Instance(nf, "N", "N", fscale=0.002))
+    rp5.validate_pending()
+    run.notes["replay_fine_grid"] = rp5.stats
     # ---- lognormal fn: code -> spec, criterion with exp() left open ------------------------------
     ranges = [[-99, -99], [-99, 12], [4, -99], [4, 14]]
     lh = LogFnHook(hvsrpy, rs, ranges, per_state=2 if quick else 4)
@@ -182,7 +203,7 @@ def main():
     rp.validate_pending()
     rp_l.validate_pending()
     traces = lh.traces
-    cap = 1200 if quick else 8000
+    cap = 500 if quick else 8000
     if len(traces) > cap:
         idx = sorted(rs.choice(len(traces), cap, replace=False).tolist())
         traces = [traces[i] for i in idx]
